@@ -9,5 +9,23 @@ let handle = function
   | ["roundtrip"; v] ->
       let b = bytes_of_hex v in
       opt (parse_string (value_part b)) ^ " " ^ opt (git_parse_value (value_part b))
+  | ["md"; ops; probes] ->
+      (* ops: a:k:v;s:k:v;d:k   probes: k,k,...  -> after all ops: items | keyerrors | per probe get/get_all | len *)
+      let st = ref md_init and errs = ref [] in
+      List.iter (fun o ->
+        if o <> "_" then begin
+          let op = match String.split_on_char ':' o with
+            | ["a"; k; v] -> MAdd (bytes_of_hex k, bytes_of_hex v)
+            | ["s"; k; v] -> MSet (bytes_of_hex k, bytes_of_hex v)
+            | ["d"; k] -> MDel (bytes_of_hex k)
+            | _ -> failwith "op" in
+          let (s', e) = md_step !st op in st := s'; errs := (if e then "1" else "0") :: !errs end)
+        (String.split_on_char ';' ops);
+      let items = String.concat "," (List.map (fun (k, v) -> hex_of_bytes k ^ "=" ^ hex_of_bytes v) (!st).md_real) in
+      let pr = String.concat "," (List.map (fun k ->
+                 let k = bytes_of_hex k in
+                 (match md_getitem !st k with Some v -> hex_of_bytes v | None -> "none") ^ "/" ^
+                 String.concat "+" (List.map hex_of_bytes (md_get_all !st k))) (String.split_on_char ',' probes)) in
+      items ^ " " ^ String.concat "" (List.rev !errs) ^ " " ^ pr ^ " " ^ string_of_int (int_of_z (md_len !st))
   | _ -> "EXN bad request"
 let () = serve handle
